@@ -3,6 +3,7 @@
 /verif/seeded/Cxx-(offset+i)/ with a minimal meta.json (round 2 of independent seeding)."""
 import json, os, re, shutil, sys
 pid, off = sys.argv[1], int(sys.argv[2])
+ROUND = off // 3 + 1
 for i in (1, 2, 3):
     src = "/tmp/seed_%s" % pid
     if not os.path.exists(src + "/patch_%d.diff" % i):
@@ -13,9 +14,9 @@ for i in (1, 2, 3):
     shutil.copy(src + "/patch_%d.diff" % i, d + "/patch.diff")
     shutil.copy(src + "/demo_%d.py" % i, d + "/demo.py")
     files = sorted(set(re.findall(r'^\+\+\+ b/(\S+)', open(d + "/patch.diff").read(), re.M)))
-    json.dump({"property": pid, "round": 2, "files_touched": files,
+    json.dump({"property": pid, "round": ROUND, "files_touched": files,
                "confirmed": "tools/run_seeded.py %s: demo.py exits 0 on /repo HEAD and non-zero with patch.diff applied; the authoring sub-agent ran the full existing suite with the patch: 511 passed / 11 failed = the baseline" % sid,
                "ran": "tools/run_seeded.py %s (scratch worktree of /repo HEAD, git apply, VERIF_REPO=<worktree> ./check %s)" % (sid, pid),
-               "author": "independent sub-agent (second round) given only the property text and a scratch worktree"},
+               "author": "independent sub-agent (round %d)" % ROUND + " given only the property text and a scratch worktree"},
               open(d + "/meta.json", "w"), indent=1)
     print("imported", sid, files)
